@@ -1,4 +1,5 @@
 import OpcuaModel.Model.Uacp
+import OpcuaModel.Model.UacpMsg
 /-
   C05 — UACP framing delivers exactly the frames sent under any segmentation.
 
@@ -189,6 +190,122 @@ theorem C05_small_buffer (rcvBuf : Nat) (h : rcvBuf < 8) (segs : Stream) :
   rw [receiveAll_flat]
   exact receiveAllFlat_stop (by simp [receiveFlat, hdrlen, h])
 
+/-! ### writer side: `Conn.Send` and the message codec (Model/UacpMsg.lean) -/
+
+/-- round trip `Receive (Send m) = m`, for each of the four message kinds, every field value a
+    Go caller can set, every chunk-type byte, every pair of buffers and every segmentation of the
+    stream (the frame may be followed by anything): if `Send` writes (it refuses frames above its
+    send buffer) and the frame fits the receiver's buffer, `Receive` delivers exactly the bytes
+    written, leaves exactly what follows, and the handshake code's `Decode` returns the message;
+    an `ERR` message comes back as the error value with the same code and reason. -/
+theorem C05_send_receive (sndBuf rcvBuf : Nat) (hr2 : rcvBuf < 4294967296)
+    (m : Msg) (hm : m.wf) (chunk : UInt8) (f more : Bytes) (segs : Stream)
+    (hsend : send sndBuf (m.typ ++ [chunk]) m.body = some f) (hfit : f.length ≤ rcvBuf)
+    (hseg : segs.flatten = f ++ more) :
+    (match m with
+     | .err c reason => receive rcvBuf segs = .stop (.errf c reason)
+     | _ => ∃ rest, receive rcvBuf segs = .frame f rest ∧ rest.flatten = more ∧
+              (chunk = 0x46 → decodeFrame f = some m)) := by
+  obtain ⟨hc, _, _, htk, hdr⟩ := send_complete hsend hfit hr2
+  have h8 : hdrlen ≤ f.length := hc.1
+  have ht3 : f.take 3 = m.typ := by
+    have : (f.take 4).take 3 = f.take 3 := by rw [List.take_take]; rfl
+    rw [← this, htk]
+    cases m <;> rfl
+  have hflat := receive_flat rcvBuf segs
+  rw [hseg, receiveFlat_complete hc] at hflat
+  have hdec := decode_body m hm []
+  simp only [List.append_nil] at hdec
+  cases m with
+  | err c reason =>
+    have hE : isErrType f = true := by simp [isErrType, ht3, Msg.typ]
+    simp only at hdec
+    rw [hE, if_pos rfl, hdr, hdec] at hflat
+    simp only
+    cases hrx : receive rcvBuf segs with
+    | frame g r => rw [hrx] at hflat; simp [Rx.toFlat] at hflat
+    | stop o => rw [hrx] at hflat; simp only [Rx.toFlat] at hflat; injection hflat with ho; rw [ho]
+  | hello v r s mm mc url =>
+    have hE : isErrType f = false := by simp [isErrType, ht3, Msg.typ]
+    rw [hE] at hflat
+    simp only [Bool.false_eq_true, if_false] at hflat
+    cases hrx : receive rcvBuf segs with
+    | stop o => rw [hrx] at hflat; simp [Rx.toFlat] at hflat
+    | frame g r =>
+      rw [hrx] at hflat; simp only [Rx.toFlat] at hflat
+      injection hflat with hg hrest
+      subst hg
+      refine ⟨r, rfl, hrest, ?_⟩
+      intro hch
+      subst hch
+      simp only at hdec
+      simp [decodeFrame, htk, Msg.typ, hdr, hdec]
+  | ack v r s mm mc =>
+    have hE : isErrType f = false := by simp [isErrType, ht3, Msg.typ]
+    rw [hE] at hflat
+    simp only [Bool.false_eq_true, if_false] at hflat
+    cases hrx : receive rcvBuf segs with
+    | stop o => rw [hrx] at hflat; simp [Rx.toFlat] at hflat
+    | frame g r =>
+      rw [hrx] at hflat; simp only [Rx.toFlat] at hflat
+      injection hflat with hg hrest
+      subst hg
+      refine ⟨r, rfl, hrest, ?_⟩
+      intro hch
+      subst hch
+      simp only at hdec
+      simp [decodeFrame, htk, Msg.typ, hdr, hdec]
+  | rhe uri url =>
+    have hE : isErrType f = false := by simp [isErrType, ht3, Msg.typ]
+    rw [hE] at hflat
+    simp only [Bool.false_eq_true, if_false] at hflat
+    cases hrx : receive rcvBuf segs with
+    | stop o => rw [hrx] at hflat; simp [Rx.toFlat] at hflat
+    | frame g r =>
+      rw [hrx] at hflat; simp only [Rx.toFlat] at hflat
+      injection hflat with hg hrest
+      subst hg
+      refine ⟨r, rfl, hrest, ?_⟩
+      intro hch
+      subst hch
+      simp only at hdec
+      simp [decodeFrame, htk, Msg.typ, hdr, hdec]
+
+/-- `Send` never writes a frame above its send buffer, and what it writes is header + body with
+    the size field equal to the frame length (bodies below 4 GiB: `MessageSize` is
+    `uint32(len(body)+8)`, a larger body would wrap the field) -/
+theorem C05_send_bounded (sndBuf : Nat) (typ body f : Bytes) (hb : body.length + 8 < 4294967296)
+    (h : send sndBuf typ body = some f) :
+    f.length ≤ sndBuf ∧ f.length = body.length + 8 ∧ sizeOfHeader f = f.length ∧ f.take 4 = typ ∧ f.drop 8 = body := by
+  have hlen : f.length = body.length + 8 := by
+    unfold send at h
+    split at h
+    · cases h
+    · rename_i ht
+      have ht4 : typ.length = 4 := by omega
+      simp only at h
+      split at h
+      · cases h
+      · injection h with h
+        subst h
+        simp only [List.length_append, List.length_take, List.length_cons, List.length_nil, leBytes_length, ht4]
+        omega
+  obtain ⟨hc, h1, h2, h3, h4⟩ := send_complete (rcvBuf := f.length) h (Nat.le_refl _) (by omega)
+  exact ⟨h2, hlen, hc.2.2, h3, h4⟩
+
+/-- … and refuses (error, nothing written) a message that does not fit, or a type that is not 4 bytes -/
+theorem C05_send_refuses (sndBuf : Nat) (typ body : Bytes)
+    (h : typ.length ≠ 4 ∨ (sndBuf < body.length + 8 ∧ body.length + 8 < 4294967296)) :
+    send sndBuf typ body = none := by
+  unfold send
+  rcases h with h | ⟨h1, h2⟩
+  · simp [h]
+  · by_cases ht : typ.length ≠ 4
+    · simp [ht]
+    · have : (body.length + hdrlen) % 4294967296 = body.length + 8 := Nat.mod_eq_of_lt h2
+      simp only [ht, if_false, this]
+      simp; omega
+
 /-! non-vacuity: two frames ("MSGF" 9 bytes, "HELF" 8 bytes), rcvBuf 9, three segmentations -/
 private def fA : Bytes := [0x4d, 0x53, 0x47, 0x46, 9, 0, 0, 0, 0xaa]
 private def fB : Bytes := [0x48, 0x45, 0x4c, 0x46, 8, 0, 0, 0]
@@ -216,5 +333,9 @@ example : receiveAll 9 [fB, fA.take 8] = ([fB], .eof) :=
   C05_truncated 9 (by decide) [fB] fA 8 _ (by decide) (by decide) (by decide) (by decide)
 example : receiveAll 9 [fB, fA.take 5] = ([fB], .unexpectedEOF) :=
   C05_truncated 9 (by decide) [fB] fA 5 _ (by decide) (by decide) (by decide) (by decide)
+
+-- writer side: the Hello of a default client (endpoint "opc.tcp://h") is 40 bytes; a 39 byte send buffer refuses it
+example : (send 65535 ((Msg.hello 0 65535 65535 0 0 [0x6f]).typ ++ [0x46]) (Msg.hello 0 65535 65535 0 0 [0x6f]).body).map List.length = some 33 := by decide
+example : send 32 ((Msg.hello 0 65535 65535 0 0 [0x6f]).typ ++ [0x46]) (Msg.hello 0 65535 65535 0 0 [0x6f]).body = none := by decide
 
 end Opcua.Props.C05
